@@ -266,7 +266,7 @@ func (w *worker) cycles(part string, p0 control.Paragraph) {
 var lineAlphabet = []string{"", "a", " a", ".", "a ", " "}
 
 // all values: line sequences of length 1..maxLen joined by "\n", with and without a trailing "\n"; de-duplicated as
-// strings; values whose first line is empty or blank and that have further lines are left out (counted in *skipped).
+// strings (skipped is kept for the report: nothing is left out any more).
 func values(maxLen int, skipped *int) []string {
 	seen := map[string]bool{}
 	var out []string
@@ -279,10 +279,6 @@ func values(maxLen int, skipped *int) []string {
 					continue
 				}
 				seen[v] = true
-				if ls := strings.Split(strings.TrimSuffix(v, "\n"), "\n"); len(ls) > 1 && strings.TrimSpace(ls[0]) == "" {
-					*skipped++
-					continue
-				}
 				out = append(out, v)
 			}
 		}
@@ -294,6 +290,43 @@ func values(maxLen int, skipped *int) []string {
 		}
 	}
 	rec(nil)
+	return out
+}
+
+// ---- part 1b: values with lines other than the first that start with '#', possibly after extra indentation ----
+
+var hashLines = []string{"#", "#a", " #a", "  # a", "\t#a", "#!/bin/sh"}
+var plainLines = []string{"a", "", " a"}
+var hashFirsts = []string{"a", "#a", " #a"}
+
+// first line from hashFirsts, then 1..maxRest further lines over hashLines and plainLines of which at least one is from
+// hashLines; with and without a trailing "\n", de-duplicated as strings; no value has an empty first line.
+func hashValues(maxRest int) []string {
+	var out []string
+	seen := map[string]bool{}
+	var rec func(cur []string, hashes int)
+	rec = func(cur []string, hashes int) {
+		if len(cur) > 1 && hashes > 0 {
+			for _, nl := range []string{"", "\n"} {
+				if v := strings.Join(cur, "\n") + nl; !seen[v] {
+					seen[v] = true
+					out = append(out, v)
+				}
+			}
+		}
+		if len(cur) == maxRest+1 {
+			return
+		}
+		for _, l := range hashLines {
+			rec(append(cur[:len(cur):len(cur)], l), hashes+1)
+		}
+		for _, l := range plainLines {
+			rec(append(cur[:len(cur):len(cur)], l), hashes)
+		}
+	}
+	for _, f := range hashFirsts {
+		rec([]string{f}, 0)
+	}
 	return out
 }
 
@@ -358,6 +391,172 @@ func (w *worker) encoder(ss []S) {
 	}
 }
 
+// ---- part 2b: one Encoder, 2..3 Encode calls mixing struct, *struct, []struct and *[]struct arguments ----
+
+type T struct {
+	C string `required:"true"`
+	D string
+}
+
+type callKind struct {
+	name       string
+	slice, ptr bool
+	n          int // number of structs in the argument
+}
+
+var callKinds = []callKind{
+	{"struct", false, false, 1}, {"*struct", false, true, 1},
+	{"[]0", true, false, 0}, {"[]1", true, false, 1}, {"[]2", true, false, 2},
+	{"*[]0", true, true, 0}, {"*[]1", true, true, 1}, {"*[]2", true, true, 2},
+}
+
+func kindNames() []string {
+	var out []string
+	for _, k := range callKinds {
+		out = append(out, k.name)
+	}
+	return out
+}
+
+// the struct values handed to the calls, in turn (B/D optional: omitted when empty)
+var mixedPool = []S{
+	{"a", ""}, {"a\n a", "b"}, {"", "c\n\nd\n"}, {"x\n#y\n  # z", ""}, {"a \n b\n", " i\nj"}, {"e", "f"},
+}
+
+// encoderMixed runs the calls kinds[i] on one Encoder. Call i takes struct type S when types[i] == 'S', else T (other field
+// names: a lost separator between an S and a T paragraph gives one merged paragraph, between two of the same type a
+// duplicate field). The struct values are mixedPool[off], mixedPool[off+1], ... in the order written.
+func (w *worker) encoderMixed(kinds []int, types string, off int) {
+	var names []string
+	var args []interface{}
+	var want []control.Paragraph
+	allS := true
+	var wantS []S
+	next := off
+	for i, k := range kinds {
+		ck := callKinds[k]
+		names = append(names, ck.name+" of "+types[i:i+1])
+		var ss []S
+		var ts []T
+		for j := 0; j < ck.n; j++ {
+			v := mixedPool[next%len(mixedPool)]
+			next++
+			p := control.Paragraph{Values: map[string]string{}}
+			f1, f2 := "A", "B"
+			if types[i] == 'T' {
+				f1, f2 = "C", "D"
+				ts = append(ts, T{v.A, v.B})
+				allS = false
+			} else {
+				ss = append(ss, v)
+				wantS = append(wantS, v)
+			}
+			p.Order = append(p.Order, f1)
+			p.Values[f1] = v.A
+			if v.B != "" {
+				p.Order = append(p.Order, f2)
+				p.Values[f2] = v.B
+			}
+			want = append(want, p)
+		}
+		var arg interface{}
+		switch {
+		case types[i] == 'S' && ck.slice && ck.ptr:
+			if ss == nil {
+				ss = []S{}
+			}
+			arg = &ss
+		case types[i] == 'S' && ck.slice:
+			arg = ss // []0: a nil slice of S
+		case types[i] == 'S' && ck.ptr:
+			arg = &ss[0]
+		case types[i] == 'S':
+			arg = ss[0]
+		case ck.slice && ck.ptr:
+			if ts == nil {
+				ts = []T{}
+			}
+			arg = &ts
+		case ck.slice:
+			arg = ts
+		case ck.ptr:
+			arg = &ts[0]
+		default:
+			arg = ts[0]
+		}
+		args = append(args, arg)
+	}
+	in := fmt.Sprintf("one Encoder, Encode calls %q, struct values in order %s", names, show(want...))
+	if len(want) == 0 {
+		w.parts["encoder-mixed-trivial"]++ // only empty slices: nothing written, nothing to read back
+	} else {
+		w.count("encoder-mixed", in)
+	}
+	w.part = "encoder-mixed"
+	var b bytes.Buffer
+	var err error
+	call := -1
+	if pan := guard(func() {
+		var enc *control.Encoder
+		if enc, err = control.NewEncoder(&b); err != nil {
+			return
+		}
+		for i, a := range args {
+			call = i
+			if err = enc.Encode(a); err != nil {
+				return
+			}
+		}
+	}); pan != "" || err != nil {
+		w.fail("encoder-error", in, fmt.Sprintf("call %d: panic=%q err=%v", call, pan, err))
+		return
+	}
+	text := b.String()
+	if len(want) == 0 {
+		if text != "" {
+			w.fail("encoder-paragraph-count", in, fmt.Sprintf("no struct encoded, but %q was written", text))
+		}
+		return
+	}
+	// every paragraph text is followed by a newline and the separator is a single empty line: no paragraph of these
+	// values contains an empty or whitespace-only line, so the empty lines of the text are exactly the separators
+	blank := 0
+	for _, l := range strings.Split(strings.TrimSuffix(text, "\n"), "\n") {
+		if strings.TrimSpace(l) == "" {
+			blank++
+		}
+	}
+	var got []control.Paragraph
+	var e1 error
+	if pan := guard(func() { got, e1 = w.read(text) }); pan != "" || e1 != nil {
+		w.fail("encoder-readback-error", in, fmt.Sprintf("text %q (%d paragraphs written, %d blank lines in the text): panic=%q All err=%v", text, len(want), blank, pan, e1))
+		return
+	}
+	if len(got) != len(want) {
+		w.fail("encoder-paragraph-count", in, fmt.Sprintf("encoded %d structs as %q; read back %d paragraphs %s", len(want), text, len(got), show(got...)))
+		return
+	}
+	for _, key := range classify(want, got, false, "encoder-readback-differs") {
+		w.fail(key, in, fmt.Sprintf("encoded %d structs as %q; read back %s", len(want), text, show(got...)))
+	}
+	if allS {
+		var back []S
+		var e2 error
+		if pan := guard(func() { e2 = control.Unmarshal(&back, w.of(text)) }); pan != "" || e2 != nil || len(back) != len(wantS) {
+			w.fail("encoder-paragraph-count", in, fmt.Sprintf("encoded %d structs as %q; Unmarshal(&[]S): panic=%q err=%v, %d structs %q", len(wantS), text, pan, e2, len(back), back))
+			return
+		}
+		var wantStruct, viaStruct []control.Paragraph
+		for i := range back {
+			wantStruct = append(wantStruct, control.Paragraph{Order: []string{"A", "B"}, Values: map[string]string{"A": wantS[i].A, "B": wantS[i].B}})
+			viaStruct = append(viaStruct, control.Paragraph{Order: []string{"A", "B"}, Values: map[string]string{"A": back[i].A, "B": back[i].B}})
+		}
+		for _, key := range classify(wantStruct, viaStruct, false, "encoder-readback-differs") {
+			w.fail(key, in, fmt.Sprintf("encoded as %q; Unmarshal(&[]S) gave %q", text, back))
+		}
+	}
+}
+
 // ---- part 3: documents of C07's model accepted by the reader: read-write-read identity ----
 
 type rawPara struct{ control.Paragraph }
@@ -372,14 +571,6 @@ func (w *worker) document(text string) {
 	}
 	if err != nil || len(ps) == 0 {
 		return // not accepted by the reader: outside this property
-	}
-	for _, p := range ps {
-		for _, v := range p.Values {
-			if strings.HasPrefix(strings.TrimSuffix(v, "\n"), "\n") {
-				w.parts["model-document-skipped-residual"]++ // empty first line + further lines: outside the domain
-				return
-			}
-		}
 	}
 	w.count("model-document", text)
 	// write: every paragraph with WriteTo (blank-line check), the whole sequence through the encoder
@@ -566,6 +757,49 @@ func main() {
 		})
 	}
 
+	// part 1b: '#' lines
+	hashVals := hashValues(3)
+	hashPairVals := hashValues(2)
+	others := []string{"b", "b\n c\n", "#b", "b\n#c", "b\n #c\n", " b\n\n", "b\n\n#\n", ""}
+	jobs = append(jobs, func(w *worker) {
+		for _, v := range hashVals {
+			w.cycles("1-field-hash", control.Paragraph{Order: []string{"A"}, Values: map[string]string{"A": v}})
+		}
+	}, func(w *worker) {
+		for _, v := range hashVals {
+			w.cycles("3-field-hash", control.Paragraph{Order: []string{"Package", "Description", "Section"}, Values: map[string]string{"Package": "foo", "Description": v, "Section": "misc"}})
+		}
+	}, func(w *worker) {
+		for _, v := range hashPairVals {
+			for _, o := range others {
+				w.cycles("2-field-hash", control.Paragraph{Order: []string{"B", "A"}, Values: map[string]string{"B": v, "A": o}})
+				w.cycles("2-field-hash", control.Paragraph{Order: []string{"B", "A"}, Values: map[string]string{"B": o, "A": v}})
+			}
+		}
+	})
+
+	// part 2b: every sequence of 2..3 call kinds x struct types per call x pool offset
+	nk := len(callKinds)
+	for k0 := 0; k0 < nk; k0++ {
+		k0 := k0
+		jobs = append(jobs, func(w *worker) {
+			for k1 := 0; k1 < nk; k1++ {
+				for _, types := range []string{"SS", "ST", "TS", "TT"} {
+					for off := range mixedPool {
+						w.encoderMixed([]int{k0, k1}, types, off)
+					}
+				}
+				for k2 := 0; k2 < nk; k2++ {
+					for _, types := range []string{"SSS", "SST", "STS", "STT", "TSS", "TST", "TTS", "TTT"} {
+						for off := range mixedPool {
+							w.encoderMixed([]int{k0, k1, k2}, types, off)
+						}
+					}
+				}
+			}
+		})
+	}
+
 	var docs []string
 	modelDocs(func(s string) { docs = append(docs, s) })
 	for lo := 0; lo < len(docs); lo += 2000 {
@@ -641,21 +875,31 @@ func main() {
 	}
 
 	var samples []interface{}
-	for _, v := range []string{"a", "a\n a\n\na ", "\n", "a \n.\n a", ".\n\n\na\n"} {
+	for _, v := range []string{"a", "a\n a\n\na ", "\n", "a \n.\n a", ".\n\n\na\n", "a\n#!/bin/sh\n  # a\n", " #a\n\t#a"} {
 		p := control.Paragraph{Order: []string{"A"}, Values: map[string]string{"A": v}}
 		t, _ := write(p)
 		back, err := (&worker{}).read(t)
 		samples = append(samples, map[string]interface{}{"paragraph": show(p), "written": t, "read_back": show(back...), "err": fmt.Sprint(err)})
 	}
 	samples = append(samples, map[string]interface{}{"encoder_structs": fmt.Sprintf("%q", []S{{"", ""}, {"a\n a", "a"}}), "note": "A is required:\"true\" and always written, B is omitted when empty"})
+	{
+		var b bytes.Buffer
+		enc, _ := control.NewEncoder(&b)
+		enc.Encode([]S{mixedPool[0], mixedPool[1]})
+		enc.Encode(T{"x\n#y", ""})
+		enc.Encode(&[]S{mixedPool[5]})
+		samples = append(samples, map[string]interface{}{"encoder_mixed_calls": "Encode([]S{{a,\"\"},{\"a\\n a\",b}}); Encode(T{\"x\\n#y\",\"\"}); Encode(&[]S{{e,f}})", "written": b.String()})
+	}
 	samples = append(samples, map[string]interface{}{"model_document": docs[7]}, map[string]interface{}{"model_document": docs[len(docs)-3]})
 
 	out := map[string]interface{}{
-		"bound": fmt.Sprintf("(1) Paragraphs with 1 field (A) over all %d values and with 2 fields (B then A) over all pairs of %d values. Values = line sequences of length 1..4 (pairs: 1..%d) over {\"\", \"a\", \" a\", \".\", \"a \", \" \"} joined by \"\\n\", with and without a trailing \"\\n\", de-duplicated as strings; the %d values whose first line is empty (or only blanks) and that have further lines are outside the domain. Each paragraph goes through 3 cycles of WriteTo + NewParagraphReader.All. ", len(vals), len(pairVals), map[bool]int{true: 4, false: 3}[thorough], skipped) +
+		"bound": fmt.Sprintf("(1) Paragraphs with 1 field (A) over all %d values and with 2 fields (B then A) over all pairs of %d values. Values = line sequences of length 1..4 (pairs: 1..%d) over {\"\", \"a\", \" a\", \".\", \"a \", \" \"} joined by \"\\n\", with and without a trailing \"\\n\", de-duplicated as strings; values whose first line is empty (or only blanks) and that have further lines are included since the WriteTo repair of this session (%d were left out before, wrongly). Each paragraph goes through 3 cycles of WriteTo + NewParagraphReader.All. ", len(vals), len(pairVals), map[bool]int{true: 4, false: 3}[thorough], skipped) +
 			"Equality after the first read: same Order, same key set, per field the same logical lines, where logical lines = value minus one trailing \"\\n\", split at \"\\n\", each line right-trimmed of space/tab/CR (the reader trims lines on the right). From the second cycle on (input produced by the reader): same Order, values byte-identical up to one trailing \"\\n\". Texts: text3 == text2 byte for byte, text2 == text1 after right-trimming every line, len(text2) <= len(text1). Every written paragraph text must end in \"\\n\" and contain no empty or whitespace-only line. The value sets include every value ending in 1..3 empty lines (e.g. \"a\\n\\n\", \"a\\n\\n\\n\", \"a\\n a\\n\\n\"; pairs and encoder: 1..2 resp. 1); a read-back that only lacks such empty last lines is reported as trailing-blank-lines-lost. " +
+			fmt.Sprintf("(1b) ADDED lines starting with '#': values = first line from %q followed by 1..3 (pairs: 1..2) further lines over %q and %q of which at least one is from the first set (a '#' directly at the start of the line or after 1..2 blanks / a tab of extra indentation), with and without a trailing \"\\n\", de-duplicated as strings: %d values as the only field A, the same %d values as the middle field of {Package: foo, Description: v, Section: misc}, and %d values paired in both orders (B then A) with each of %q; same 3 cycles and the same equalities as (1): every such line has to come back as a line of the value. ", hashFirsts, hashLines, plainLines, len(hashVals), len(hashVals), len(hashPairVals), others) +
 			fmt.Sprintf("(2) Encoder: sequences of 1, 2 (all ordered pairs) of %d structs S{A string `required:\"true\"`; B string} and 3 (all ordered triples of an evenly spaced subset of %d of them); A over the %d values of 1..2 lines, B over those plus \"\"%s; written with NewEncoder(w).Encode one after another, read back with All and with Unmarshal(&[]S): same number of paragraphs, A always present, B present iff non-empty, same logical lines. ", len(structs), len(triples), len(encVals), map[bool]string{true: "", false: " (quick: every (A,B) grid point with (i+j)%7==0 plus all B==\"\")"}[thorough]) +
-			"(3) C07 model documents (fields 'Name:'+[' '+first], first line in {\"\",\"x\",\"x y \"}, 0..2 continuation lines from {\"  x\",\"\\tz\",\" .\",\" x \"}; LF/CRLF; with/without final newline): M1 = 1 paragraph of 1..2 fields named A,B with a '# c' comment at no/every line position, and with one leading blank line; M2 = 2 one-field paragraphs separated by 1..2 blank lines. Each document accepted by the reader (except those where the reader returns a value that begins with an empty line followed by further lines, e.g. \"A:\\n .\\n  x\": the stated residual outside the domain; counted in rule as model-document-skipped-residual) is written through the encoder (struct{control.Paragraph}) and read again: identical paragraphs (values byte-identical up to one trailing \"\\n\"), and a second write gives the same text.",
-		"rule":                fmt.Sprintf("Nested exhaustive enumeration of the three stated domains; every case runs the real WriteTo/Encoder/ParagraphReader/Unmarshal. evaluations by part: %v. distinct_nontrivial = distinct (part, input) pairs by 64-bit FNV hash; every case is non-trivial (at least one field written and read back; model documents count only when the reader accepted them and returned >= 1 paragraph).", parts),
+			fmt.Sprintf("(2b) ADDED mixed Encode calls on one Encoder: every sequence of 2 and of 3 calls over the %d argument kinds %v (struct value, pointer to struct, slice and pointer to slice with 0, 1, 2 elements; []0 is a nil slice, *[]0 points to an empty one), every assignment of the struct types S{A required; B} / T{C required; D} to the calls (2^len), and %d rotations of the value pool %q handed out in writing order (values include multi-line, empty-line, indented-first-line and '#'-line values): no Encode error; the text reads back (All) as exactly as many paragraphs as structs were encoded, in order, with the field names of the respective type and the same logical lines; when all calls use S also Unmarshal(&[]S) gives that many structs with the same lines; sequences of empty slices only must write nothing (counted as encoder-mixed-trivial, not as evaluations). ", len(callKinds), kindNames(), len(mixedPool), mixedPool) +
+			"(3) C07 model documents (fields 'Name:'+[' '+first], first line in {\"\",\"x\",\"x y \"}, 0..2 continuation lines from {\"  x\",\"\\tz\",\" .\",\" x \"}; LF/CRLF; with/without final newline): M1 = 1 paragraph of 1..2 fields named A,B with a '# c' comment at no/every line position, and with one leading blank line; M2 = 2 one-field paragraphs separated by 1..2 blank lines. Each document accepted by the reader is written through the encoder (struct{control.Paragraph}) and read again: identical paragraphs (values byte-identical up to one trailing \"\\n\"), and a second write gives the same text.",
+		"rule":                fmt.Sprintf("Nested exhaustive enumeration of the stated domains (1), (1b), (2), (2b), (3); every case runs the real WriteTo/Encoder/ParagraphReader/Unmarshal. evaluations by part: %v. distinct_nontrivial = distinct (part, input) pairs by 64-bit FNV hash; every case is non-trivial (at least one field written and read back; model documents count only when the reader accepted them and returned >= 1 paragraph).", parts),
 		"failure_counts":      counts,
 		"evaluations":         evals,
 		"distinct_nontrivial": distinct,
